@@ -6,8 +6,10 @@ package main
 // model and the harness connection and are executed from their SSA.
 
 import (
+	"encoding/json"
 	"fmt"
 	"go/types"
+	"strings"
 )
 
 type streamItem struct {
@@ -15,6 +17,10 @@ type streamItem struct {
 	end     *Term
 	json    *JNode
 	garbage bool
+	textLen *Term  // length of the JSON text (the frame is: leading blanks, text, newline)
+	inner   *JNode // split frames: a nested value preceded by blanks inside the text ...
+	headLen int    // ... which starts after headLen bytes of text
+	innerLen int
 }
 
 type StreamObj struct {
@@ -34,7 +40,11 @@ type DecData struct {
 	total  *Term
 	next   int
 	err    Value
-	torn   bool // bound to a stream another decoder had already been reading: it starts mid-stream
+	base    *Term // stream position at which this decoder started reading
+	aligned bool  // its position relative to the frame sequence has been determined
+	pending      *JNode // mid-stream start in front of a nested value: the value it is going to parse
+	pendingEnd   *Term
+	afterPending bool
 }
 
 func (e *Exec) streamOf(v Value) *StreamObj {
@@ -60,7 +70,37 @@ func registerStreams() {
 		}
 		n := a[2].(*Term)
 		s.total = BVBin("bvadd", s.total, n)
-		s.items = append(s.items, streamItem{n: n, end: s.total, json: b.json})
+		it := streamItem{n: n, end: s.total, json: b.json}
+		if txt, ok := b.json.wireText(); ok {
+			it.textLen = IntC(int64(len(txt)))
+			e.assume(BVCmp("bvslt", it.textLen, n))
+		}
+		s.items = append(s.items, it)
+		return nil
+	})
+	// vStreamPutSplit(s, whole, inner, size): the frame of `whole` with its blanks placed in front of the nested
+	// value `inner` (which must occur literally in the text of whole)
+	reg("H.vStreamPutSplit", func(e *Exec, th *Thread, a []Value) Value {
+		s := e.streamOf(a[0])
+		whole, _ := a[1].(*BytesV)
+		inner, _ := a[2].(*BytesV)
+		if whole == nil || whole.json == nil || inner == nil || inner.json == nil {
+			panic(e.unsupported("vStreamPutSplit of bytes without JSON tree"))
+		}
+		wt, ok1 := whole.json.wireText()
+		it0, ok2 := inner.json.wireText()
+		if !ok1 || !ok2 {
+			panic(e.unsupported("vStreamPutSplit of symbolic envelopes"))
+		}
+		at := strings.Index(wt, it0)
+		if at < 0 {
+			panic(pathEnd{kind: "inconclusive", msg: "vStreamPutSplit: the inner value does not occur in the text of the outer one"})
+		}
+		n := a[3].(*Term)
+		s.total = BVBin("bvadd", s.total, n)
+		e.assume(BVCmp("bvslt", IntC(int64(len(wt))), n))
+		s.items = append(s.items, streamItem{n: n, end: s.total, json: whole.json, textLen: IntC(int64(len(wt))),
+			inner: inner.json, headLen: at, innerLen: len(it0)})
 		return nil
 	})
 	reg("H.vStreamPutGarbage", func(e *Exec, th *Thread, a []Value) Value {
@@ -184,8 +224,29 @@ func registerStreams() {
 			return e.jsonErr("Decode(non-pointer or nil)")
 		}
 		rm := e.methodByName(d.r.t, "Read")
+		dst := rv{isPtrVal: true, ptr: target.v.(PtrV), t: target.t}
 		for iter := 0; iter < e.x.maxUnroll; iter++ {
-			if d.stream != nil && d.next < len(d.stream.items) {
+			if d.stream != nil && !d.aligned {
+				// A decoder that starts reading a stream another decoder had been consuming: where in the
+				// frame sequence does it start? (what the first one had buffered beyond its last value is lost)
+				if r, done := e.alignDecoder(th, d, dst); done {
+					return r
+				}
+			}
+			if d.stream != nil && d.aligned && d.pending != nil {
+				// mid-frame start inside the blank region in front of a nested value: that value is what it parses
+				pos := BVBin("bvadd", d.base, d.total)
+				if e.branch(BVCmp("bvsle", d.pendingEnd, pos)) {
+					n := d.pending
+					d.pending = nil
+					d.afterPending = true
+					return e.decode(th, n, dst, 0)
+				}
+			} else if d.stream != nil && d.aligned && d.afterPending {
+				// the rest of the torn frame does not parse
+				d.err = e.jsonErr("invalid character after top-level value (decoder started mid-stream)")
+				return d.err
+			} else if d.stream != nil && d.aligned && d.next < len(d.stream.items) {
 				it := d.stream.items[d.next]
 				// a JSON value is complete with its last byte; the delimiter that follows is not needed
 				need := BVBin("bvsub", it.end, IntC(1))
@@ -193,13 +254,14 @@ func registerStreams() {
 					// undecodable bytes: the error is raised as soon as the first offending byte is seen
 					need = BVBin("bvadd", BVBin("bvsub", it.end, it.n), IntC(1))
 				}
-				if e.branch(BVCmp("bvsle", need, d.total)) {
+				pos := BVBin("bvadd", d.base, d.total)
+				if e.branch(BVCmp("bvsle", need, pos)) {
 					d.next++
 					if it.garbage {
 						d.err = e.jsonErr("invalid character looking for beginning of value")
 						return d.err
 					}
-					return e.decode(th, it.json, rv{isPtrVal: true, ptr: target.v.(PtrV), t: target.t}, 0)
+					return e.decode(th, it.json, dst, 0)
 				}
 			}
 			// free space of the decoder's buffer: never the limiting factor (the connection is free to
@@ -207,33 +269,29 @@ func registerStreams() {
 			q := IntC(1 << 20)
 			e.lastRead = nil
 			r := e.invoke(th, d.r, rm, []Value{&AbufV{n: q}}).(TupleV)
+			n := r[0].(*Term)
 			if d.stream == nil && e.lastRead != nil {
 				d.stream = e.lastRead
-				if d.stream.owner != nil && d.stream.owner != d {
-					// A second decoder on a stream that was already being decoded: whatever the first one had
-					// buffered is lost and this one starts in the middle of the data. What it then parses is
-					// not determined by the frames any more.
-					d.torn = true
+				if d.stream.owner == nil {
+					d.base = IntC(0)
+					d.aligned = true
+				} else if d.stream.owner != d {
+					// everything the stream handed out before this read went to the previous decoder
+					d.base = BVBin("bvsub", d.stream.delivered, n)
 				}
 				d.stream.owner = d
-			}
-			n := r[0].(*Term)
-			if d.torn && isNilErr(r[1]) {
-				if e.branch(e.fresh("torn.syntax-error", 0)) {
-					d.err = e.jsonErr("invalid character (decoder started mid-stream)")
-					return d.err
-				}
-				// ... or it happens to find something that parses: an envelope nobody sent
-				fab, _ := parseJSONText(`{"id":"fabricated-by-mid-stream-decoder","event":"received"}`)
-				return e.decode(th, fab, rv{isPtrVal: true, ptr: target.v.(PtrV), t: target.t}, 0)
 			}
 			if !isNilErr(r[1]) {
 				// bytes of an incomplete value already consumed: EOF becomes ErrUnexpectedEOF
 				start := IntC(0)
-				if d.stream != nil && d.next > 0 {
+				if d.stream != nil && d.aligned && d.next > 0 && d.next <= len(d.stream.items) {
 					start = d.stream.items[d.next-1].end
 				}
-				if e.errorsIs(th, r[1], e.sentinel("io.EOF")).IsTrue() && e.branch(BVCmp("bvslt", start, d.total)) {
+				pos := d.total
+				if d.base != nil {
+					pos = BVBin("bvadd", d.base, d.total)
+				}
+				if e.errorsIs(th, r[1], e.sentinel("io.EOF")).IsTrue() && e.branch(BVCmp("bvslt", start, pos)) {
 					d.err = e.sentinel("io.ErrUnexpectedEOF")
 				} else {
 					d.err = r[1]
@@ -245,4 +303,183 @@ func registerStreams() {
 		panic(pathEnd{kind: "inconclusive", msg: "unwinding bound exceeded in json.Decoder model (reads per Decode)"})
 	})
 	_ = types.Typ
+}
+
+
+// ---- crypto/tls: the connection is wrapped in a marked stub ---------------------------------
+
+type TLSData struct {
+	inner  IfaceV
+	server bool
+	shook  bool
+}
+
+func (e *Exec) tlsOf(v Value) *TLSData {
+	p, ok := v.(PtrV)
+	if !ok || p.obj == nil {
+		return nil
+	}
+	d, _ := p.obj.val.(*TLSData)
+	return d
+}
+
+// tlsMethod delegates to the wrapped connection, telling it (when it wants to know) that the call came through TLS.
+func (e *Exec) tlsMethod(th *Thread, d *TLSData, name string, args []Value) Value {
+	mark := e.methodByName(d.inner.t, "VMarkTLS")
+	switch name {
+	case "Handshake":
+		if hk := e.methodByName(d.inner.t, "VTLSHandshake"); hk != nil {
+			e.invoke(th, d.inner, hk, nil)
+		}
+		if e.branch(e.fresh("tls.handshake-fails", 0)) {
+			return e.mkErr("tls: handshake failure", nil)
+		}
+		d.shook = true
+		return IfaceV{}
+	case "Read", "Write":
+		if mark != nil {
+			e.invoke(th, d.inner, mark, []Value{tTrue})
+		}
+		r := e.invoke(th, d.inner, e.methodByName(d.inner.t, name), args)
+		if mark != nil {
+			e.invoke(th, d.inner, mark, []Value{tFalse})
+		}
+		return r
+	}
+	m := e.methodByName(d.inner.t, name)
+	if m == nil {
+		panic(e.unsupported("tls.Conn method " + name))
+	}
+	return e.invoke(th, d.inner, m, args)
+}
+
+func registerTLS() {
+	mk := func(server bool) intrinsic {
+		return func(e *Exec, th *Thread, a []Value) Value {
+			inner, _ := a[0].(IfaceV)
+			if inner.t == nil {
+				e.raise(th, "nil-dereference", nil)
+			}
+			return PtrV{obj: e.newObj(&TLSData{inner: inner, server: server}, nil, "tls.Conn")}
+		}
+	}
+	intrinsics["crypto/tls.Server"] = mk(true)
+	intrinsics["crypto/tls.Client"] = mk(false)
+	for _, name := range []string{"Handshake", "Read", "Write", "Close", "SetDeadline", "SetReadDeadline", "SetWriteDeadline", "LocalAddr", "RemoteAddr"} {
+		name := name
+		intrinsics["(*crypto/tls.Conn)."+name] = func(e *Exec, th *Thread, a []Value) Value {
+			d := e.tlsOf(a[0])
+			if d == nil {
+				e.raise(th, "nil-dereference", nil)
+			}
+			return e.tlsMethod(th, d, name, a[1:])
+		}
+	}
+}
+
+
+// alignDecoder decides where a decoder that starts mid-stream finds itself. Frames are, natively,
+// `blanks text newline` (plain) or `head blanks inner rest newline` (split): starting inside leading
+// blanks parses the frame normally; inside the blanks in front of a nested value parses that value;
+// anywhere else inside a text is a syntax error.
+func (e *Exec) alignDecoder(th *Thread, d *DecData, dst rv) (Value, bool) {
+	s := d.stream
+	n := len(s.items)
+	conds := make([]*Term, 0, n+1)
+	starts := make([]*Term, n)
+	for i, it := range s.items {
+		starts[i] = BVBin("bvsub", it.end, it.n)
+		conds = append(conds, And(BVCmp("bvsle", starts[i], d.base), BVCmp("bvslt", d.base, it.end)))
+	}
+	conds = append(conds, BVCmp("bvsle", s.total, d.base))
+	k := e.choose("decoder-start", n+1, conds, true)
+	d.aligned = true
+	if k == n {
+		d.next = n
+		return nil, false
+	}
+	it := s.items[k]
+	o := BVBin("bvsub", d.base, starts[k])
+	syntax := func() (Value, bool) {
+		d.err = e.jsonErr("invalid character (decoder started in the middle of a value)")
+		return d.err, true
+	}
+	if it.garbage {
+		return syntax()
+	}
+	if it.textLen == nil {
+		panic(e.unsupported("mid-stream decoder over a frame of unknown text length"))
+	}
+	lead := BVBin("bvsub", BVBin("bvsub", it.n, it.textLen), IntC(1))
+	last := BVBin("bvsub", it.n, IntC(1))
+	if it.inner == nil {
+		// plain frame: [0, lead] -> parses this frame; [n-1] -> only the delimiter is left; else syntax error
+		switch e.choose("decoder-offset", 3, []*Term{BVCmp("bvsle", o, lead), Eq(o, last), And(BVCmp("bvslt", lead, o), BVCmp("bvslt", o, last))}, true) {
+		case 0:
+			d.next = k
+		case 1:
+			d.next = k + 1
+		default:
+			return syntax()
+		}
+		return nil, false
+	}
+	// split frame: text = head(headLen) blanks(lead) inner rest; no leading blanks in front of the text
+	h := IntC(int64(it.headLen))
+	innerStart := BVBin("bvadd", h, lead)
+	switch e.choose("decoder-offset", 4, []*Term{Eq(o, IntC(0)), Eq(o, last),
+		And(BVCmp("bvsle", h, o), BVCmp("bvsle", o, innerStart)),
+		And(BVCmp("bvslt", IntC(0), o), BVCmp("bvslt", o, last), Not(And(BVCmp("bvsle", h, o), BVCmp("bvsle", o, innerStart))))}, true) {
+	case 0:
+		d.next = k
+	case 1:
+		d.next = k + 1
+	case 2:
+		d.pending = it.inner
+		d.pendingEnd = BVBin("bvadd", starts[k], BVBin("bvadd", innerStart, IntC(int64(it.innerLen))))
+		d.next = k + 1
+	default:
+		return syntax()
+	}
+	return nil, false
+}
+
+// wireText: the exact text encoding/json produces for a fully concrete tree (struct field order as built,
+// Go's string escaping); ok=false when something is symbolic.
+func (n *JNode) wireText() (string, bool) {
+	switch n.kind {
+	case jObj:
+		var ps []string
+		for i := range n.keys {
+			c := n.cond(i)
+			if !c.IsConst() {
+				return "", false
+			}
+			if c.IsFalse() {
+				continue
+			}
+			k, ok := n.keys[i].Concrete()
+			if !ok {
+				return "", false
+			}
+			v, ok := n.vals[i].wireText()
+			if !ok {
+				return "", false
+			}
+			kb, _ := json.Marshal(k)
+			ps = append(ps, string(kb)+":"+v)
+		}
+		return "{" + strings.Join(ps, ",") + "}", true
+	case jArr:
+		var ps []string
+		for _, c := range n.arr {
+			v, ok := c.wireText()
+			if !ok {
+				return "", false
+			}
+			ps = append(ps, v)
+		}
+		return "[" + strings.Join(ps, ",") + "]", true
+	}
+	return n.canon()
 }
